@@ -173,7 +173,7 @@ def check(ctx, run):
                 run.fail(Finding("C16.R4", fnq_, text[:120], f"a computation stores into the module-level container {tgt.value.id}: results depend on what earlier calls (other dtypes, other devices, other arguments) left there",
                                  file=str(mod.path), line=node.lineno))
                 continue
-        if how == "augassign" and isinstance(node.value, (ast.Constant, ast.BinOp, ast.Call)) and isinstance(node.target, ast.Name) and node.target.id in ("n_iter", "out", "params_str", "main_str", "extra_repr"):
+        if how == "augassign" and isinstance(node.target, ast.Name) and python_scalar_local(prog, mod, node):
             skipped += 1
             continue
         if how.startswith("method:") and how[7:] in EXEMPT_METHODS:
@@ -512,6 +512,36 @@ def check(ctx, run):  # noqa: F811
     run.require("C16.R3m", 5)
     if n_m < 5:
         raise AnalysisError(f"only {n_m} built-in model forwards could be interpreted")
+
+
+def python_scalar_local(prog, mod, aug):
+    """`x += ...` where x is a local of the enclosing function that is only ever bound to Python numbers / strings / counters built from
+    them (initialised with a literal, an int()/len()/str() call or a string expression): an immutable Python object, not tensor storage"""
+    fn = next((f_.node for f_ in prog.functions.values() if f_.module == mod.name and any(n_ is aug for n_ in ast.walk(f_.node))), None)
+    if fn is None:
+        return False
+    name = aug.target.id
+    if name in {a.arg for a in fn.args.args + fn.args.kwonlyargs}:
+        return False
+
+    def scalar(v):
+        if isinstance(v, ast.Constant):
+            return isinstance(v.value, (int, float, str, bool))
+        if isinstance(v, ast.JoinedStr):
+            return True
+        if isinstance(v, ast.Call) and isinstance(v.func, ast.Name) and v.func.id in ("int", "len", "str", "float", "repr"):
+            return True
+        if isinstance(v, ast.Call) and isinstance(v.func, ast.Attribute) and v.func.attr in ("join", "format", "extra_repr", "_get_name", "__repr__", "_dinfo"):
+            return True
+        if isinstance(v, ast.BinOp):
+            return scalar(v.left) or scalar(v.right)
+        if isinstance(v, ast.Name):
+            return v.id == name
+        return False
+    binds = [n_.value for n_ in ast.walk(fn) if isinstance(n_, ast.Assign) and any(isinstance(t_, ast.Name) and t_.id == name for t_ in n_.targets)]
+    binds += [n_.value for n_ in ast.walk(fn) if isinstance(n_, ast.AugAssign) and isinstance(n_.target, ast.Name) and n_.target.id == name]
+    inits = [n_.value for n_ in ast.walk(fn) if isinstance(n_, ast.Assign) and any(isinstance(t_, ast.Name) and t_.id == name for t_ in n_.targets)]
+    return bool(inits) and all(scalar(v) for v in inits) and all(scalar(v) or isinstance(v, (ast.Constant, ast.Name, ast.Call, ast.BinOp, ast.JoinedStr, ast.Attribute, ast.IfExp)) for v in binds)
 
 
 def factory_purity(ctx, run):
